@@ -2,6 +2,7 @@ package main
 
 import (
 	"fmt"
+	"os"
 	"strings"
 
 	"verifharness/vkit"
@@ -237,6 +238,12 @@ func c41CheckWire(r *vkit.Run, c *c41Case, m *negoModel, f *srvFlight, res *pair
 				sig = "alpn:h2-rewritten-to-http1.1" + strings.TrimPrefix(sig, "alpn:selected")
 			}
 			r.Violation(c.xsig(f, sig), fmt.Sprintf("ServerHello selects ALPN %q; client offered %v, server list for %q is %v", f.ALPN, cl.ALPN, cl.SNI, protos), wit(nil))
+			reported = true
+		}
+		// "h2" only on a connection HTTP/2 may use (RFC 7540 9.2: TLS 1.2 or higher; 9.2.2 / Appendix A:
+		// black-listed suites - bfe withdraws h2 there and selects again among its other protocols)
+		if ok, why := h2Eligible(f.Vers, f.Suite); f.ALPN == "h2" && !ok {
+			r.Violation(c.xsig(f, "alpn:h2-on-ineligible-connection:"+why), fmt.Sprintf("ServerHello selects ALPN \"h2\" at %s with %s (%s)", versName(f.Vers), suiteName(f.Suite), why), wit(nil))
 			reported = true
 		}
 	}
@@ -577,7 +584,7 @@ func c41ScsvCases() []c41Case {
 }
 
 func c41(r *vkit.Run) {
-	r.SetRule("rawnego: the same server axes x client_version{ssl3,1.0,1.1,1.2} with hand-written ClientHellos (ServerHello parameters only). nego: full product cert{rsa,ecdsa} x 10 server [min,max] ranges (0 = default) x 9 client ranges (TLS1.0..1.3) x 7 rules (none, A+, A, B, C, C+chacha, A+chacha) with N seeded draws per cell of server suite list/order/PreferServer/priorities/curves/ALPN/tickets and client suite subset/curves/ALPN/verification/resumption; model computed from the two configurations alone (server ranges with min>max excluded; success required only where the model is exact); 64 KiB each way. xrule: full product 7x7 ordered rule pairs (first connection's rule -> second connection's rule, diagonal = control) x rule selection {SNI->SNI, SNI->default(no SNI), default->SNI, same name with the rule replaced} x {ticket via standard client (completed handshakes, 2 KiB each way), ticket in a hand-written ClientHello, session id in a hand-written ClientHello (ServerHello flight only)} x suite family the first handshake is steered to {chacha20, RC4, other; only families the first rule enables, chacha20 and RC4 drawn twice} with N seeded draws of certificate type, versions, suite lists/order, curves, ALPN; the second connection offers the first one's session and is judged by the same model computed for the second connection's rule, resumed or not. scsv: exhaustive product cert x 8 server ranges x 5 rules x client_version{ssl3,1.0,1.1,1.2} x {no session, valid ticket, valid session id} x SCSV{first,last,absent}. Non-trivial = nego: handshake completed; xrule: session established and second connection attempted; scsv: SCSV present and client_version below the server's highest version. Distinct = canonical string of both configurations")
+	r.SetRule("rawnego: the same server axes x client_version{ssl3,1.0,1.1,1.2} with hand-written ClientHellos (ServerHello parameters only). nego: full product cert{rsa,ecdsa} x 10 server [min,max] ranges (0 = default) x 9 client ranges (TLS1.0..1.3) x 7 rules (none, A+, A, B, C, C+chacha, A+chacha) with N seeded draws per cell of server suite list/order/PreferServer/priorities/curves/ALPN/tickets and client suite subset/curves/ALPN/verification/resumption; model computed from the two configurations alone (server ranges with min>max excluded; success required only where the model is exact); 64 KiB each way. xrule: full product 7x7 ordered rule pairs (first connection's rule -> second connection's rule, diagonal = control) x rule selection {SNI->SNI, SNI->default(no SNI), default->SNI, same name with the rule replaced} x {ticket via standard client (completed handshakes, 2 KiB each way), ticket in a hand-written ClientHello, session id in a hand-written ClientHello (ServerHello flight only)} x suite family the first handshake is steered to {chacha20, RC4, other; only families the first rule enables, chacha20 and RC4 drawn twice} with N seeded draws of certificate type, versions, suite lists/order, curves, ALPN; the second connection offers the first one's session and is judged by the same model computed for the second connection's rule, resumed or not. alpn: full product of 13 connection classes (std client: TLS1.0, TLS1.1, TLS1.2 with static-RSA-CBC / 3DES / RC4 / ECDHE-CBC suites [all black-listed for HTTP/2 by RFC 7540 App. A], TLS1.2 with ECDHE-GCM, with ECDHE-chacha20 [eligible]; hand-written hellos: SSLv3, TLS1.0, TLS1.1, TLS1.2 black-listed, TLS1.2 eligible; quick: one seeded concrete certificate/suite of the class per cell, thorough: every suite of the table x 3 draws) x 6 server lists ({h2}, {h2,http/1.1}, {http/1.1,h2}, {h2,spdy/3.1,http/1.1}, {spdy/3.1,h2}, {http/1.1}; placed in the rule matched by the SNI or in the global list, the other list being a decoy; quick: seeded placement, thorough: both) x 16 client lists (protocols unknown to the server in first / middle / last position or absent; h2 the only common protocol, h2 before / after another common protocol, nothing common), 1/3 of the std cases with a second, resumed connection; judged by the common model plus: the protocol in the ServerHello is in the client's list and in the server's list in force for this connection (rule list if a rule matches, else global), h2 only at TLS1.2 on a suite not black-listed (also applied to every other driver's ServerHello); that the server must select when something is common is NOT demanded (outcomes counted). scsv: exhaustive product cert x 8 server ranges x 5 rules x client_version{ssl3,1.0,1.1,1.2} x {no session, valid ticket, valid session id} x SCSV{first,last,absent}. Non-trivial = nego: handshake completed; xrule: session established and second connection attempted; scsv: SCSV present and client_version below the server's highest version. Distinct = canonical string of both configurations")
 	getPKI()
 	if r.Replay != "" {
 		var w struct {
@@ -592,11 +599,17 @@ func c41(r *vkit.Run) {
 			c41Scsv(r, &w.Case)
 		} else if w.Case.Kind == "rawnego" {
 			c41RawNego(r, &w.Case)
+		} else if w.Case.Kind == "alpn" {
+			c41Alpn(r, &w.Case, r.Rng("replay"))
 		} else if w.Case.Kind == "xrule" && w.Case.X != nil {
 			c41XRule(r, &w.Case, r.Rng("replay"))
 		} else {
 			c41Nego(r, &w.Case, r.Rng("replay"))
 		}
+		return
+	}
+	if os.Getenv("VTLS_ONLY") == "alpn" { // developer aid, never set by bin/check
+		c41AlpnAll(r)
 		return
 	}
 	// SCSV: exhaustive
@@ -659,6 +672,8 @@ func c41(r *vkit.Run) {
 	})
 	// second connections under another rule than the first
 	c41XAll(r)
+	// ALPN: unknown protocols in every position, h2 alone / with others, eligible and ineligible connections
+	c41AlpnAll(r)
 	if r.Counter("raw_server_hello_ssl3") == 0 || r.Counter("raw_refused_as_modelled") == 0 {
 		r.Inconclusive("hand-written hellos did not reach an SSLv3 ServerHello and a refusal")
 	}
